@@ -5,6 +5,11 @@ HERE = os.path.dirname(os.path.dirname(os.path.abspath(__file__)))
 
 # id -> (technique, level text, level note, design ref)
 CHECKS = {
+ "C10": (
+  "hypothesis-generated datasets with metamorphic relations across in-process runs: sample subsets, sample order permutations, pool files vs physically merged BAMs (union of alignments)",
+  "Exploration: for each generated dataset assemble, call and call-exact are run with a fixed seed on all samples, a permutation, one sample alone, a pool assignment (all-in-one, partition, a sample in two pools) and on single-sample BAMs physically holding the union of each pool's alignments: call/call-exact sample columns must be identical strings, assemble columns must agree on all statistics and on the called haplotype sequences ('.' of the alone run may become named), ALT sets are order independent, pool columns equal the merged-BAM columns.",
+  "Samples selected through the documented '<sample><TAB><bam>' list file; read names unique across pooled samples; datasets <= 2 loci x 4 samples.",
+  "DESIGN.md §4 C10"),
  "C19": (
   "hypothesis-generated single-sample BAM sets + differential against an independent CIGAR-walking base count (all-inclusive run exposing every depth) and the documented threshold rule with thresholds drawn on realised frequencies/depths",
   "Exploration: generated BAM sets (flags, MAPQ on/around the threshold, deletions/skips/clips, N bases) x read-filter configurations x threshold options: the AD of all four nucleotides at every covered target position equals the count over reads passing exactly the configured filters; with drawn --ind-maf/--ind-mad/--min-ind/--maf/--mad an allele is listed iff it meets the thresholds, a position is emitted iff >=2 alleles qualify, REF is the reference base and REFMASKED iff it fails, ALT is ordered by decreasing mean sample frequency, INFO/FORMAT AD and ADMF are recomputed.",
